@@ -159,12 +159,12 @@ def altscreen_left_on(evs):
 
 
 def cursor_left_hidden(evs):
-    """the last show-cursor command is missing from the output"""
-    i = _last(evs, lambda e: e.get("ev") == "set" and e.get("m") == 25 and e.get("v") is True)
-    if i is None:
+    """every show-cursor command is missing from the output (the session hid the cursor at least once)"""
+    hide = lambda e: e.get("ev") == "set" and e.get("m") == 25 and e.get("v") is False
+    show = lambda e: e.get("ev") == "set" and e.get("m") == 25 and e.get("v") is True
+    if not any(hide(e) for e in evs) or not any(show(e) for e in evs):
         return None
-    del evs[i]
-    return evs
+    return [e for e in evs if not show(e)]
 
 
 def kitty_not_popped(evs):
